@@ -43,11 +43,13 @@ PROPS = {
     },
     "C17": {
         "level": "proof",
-        "verus": ["types"],
-        "explanation": "KERNEL ONLY (one of the operation-validation rules): the rule 'All Variable Usages Are Allowed'. Verus proves for every pair of type references, every default value and every list of variable "
+        "verus": ["types", "field_merging"],
+        "explanation": "KERNEL ONLY (two mechanisms of the operation-validation rules). (1) Field Selection Merging, the type half of SameResponseShape: Verus proves for every schema and every pair of field types that "
+                       "same_output_type_shape answers Ok exactly when steps 3-6 of the spec's SameResponseShape hold (Non-Null on both or neither at EVERY wrapper level, List on both or neither, same leaf type, else both composite), "
+                       "and that its unwrapping loop terminates. (2) The rule 'All Variable Usages Are Allowed'. Verus proves for every pair of type references, every default value and every list of variable "
                        "definitions that is_variable_usage_allowed == IsVariableUsageAllowed (including the null default), Type::is_assignable_to == AreTypesCompatible, and that validate_variable_usage reports "
                        "exactly when the argument is a variable that is defined and whose usage the rule forbids. Bodies are re-extracted from /repo on every run.",
-        "not_decided": ["every other operation-validation rule (field merging, value literals, fragments, directives, subscriptions, arguments): differential against graphql-js, no oracle inside a contract",
+        "not_decided": ["every other operation-validation rule (the rest of field merging: which pairs of fields are compared, argument equality, the recursion into sub-selections; value literals, fragments, directives, subscriptions, arguments): differential against graphql-js, no oracle inside a contract",
                         "that validate_variable_usage is called for every variable usage (value.rs / argument.rs walk the document through iterators)"],
     },
     "C06": {
